@@ -43,6 +43,11 @@ func c09Catalogue() map[string]map[string][]*target.Target {
 	return map[string]map[string][]*target.Target{
 		"a-empty":    {},
 		"b-one":      {"j1": {c09T(1, "a:1", "")}},
+		"b2-one-relabelled": {"j1": {func() *target.Target {
+			t := c09T(1, "a:1", "", labels.Label{Name: "zone", Value: "changed"})
+			t.Series, t.TotalSeries = 777, 888
+			return t
+		}()}},
 		"c-two-jobs": {"j1": {c09T(1, "a:1", ""), c09T(2, "b:1", "")}, "j2": {c09T(3, "c:1", "")}},
 		"d-escapes": {"j1": {c09T(4, "d:1", "", labels.Label{Name: "q", Value: `say "hi" \ back`}, labels.Label{Name: "nl", Value: "line1\nline2\ttab"},
 			labels.Label{Name: "u", Value: "héllo wörld ✓ 日本"}, labels.Label{Name: "html", Value: "<a href='x'>&amp;</a>"})}},
@@ -204,7 +209,7 @@ func init() {
 				}
 			}
 		} else {
-			pairs = []pair{{"a-empty", "b-one"}, {"b-one", "c-two-jobs"}, {"c-two-jobs", "a-empty"}, {"b-one", "d-escapes"}, {"d-escapes", "e-states"}, {"a-empty", "g-empty-jobs"}, {"e-states", "f-other-one"}, {"b-one", "h-large"}}
+			pairs = []pair{{"b-one", "b2-one-relabelled"}, {"a-empty", "b-one"}, {"b-one", "c-two-jobs"}, {"c-two-jobs", "a-empty"}, {"b-one", "d-escapes"}, {"d-escapes", "e-states"}, {"a-empty", "g-empty-jobs"}, {"e-states", "f-other-one"}, {"b-one", "h-large"}}
 		}
 		var idx int64 = -1
 		for _, pr := range pairs {
@@ -342,7 +347,12 @@ func init() {
 				chk.Fatalf("HARNESS-NONDETERMINISM: syscall trace of the update differs between two runs: %v vs %v", pts1, pts2)
 			}
 			if len(pts1) == 0 {
-				chk.Fatalf("no store-directory system call found in the trace")
+				// an acknowledged update that touches the store with no system call at all: nothing to
+				// inject; whether the acknowledged assignment survives was judged by the no-fault restart
+				r.Notes = append(r.Notes, fmt.Sprintf("%s -> %s: the update issues no store-directory system call", pr.prev, pr.next))
+				r.Violate("C09:update-not-persisted", "acknowledged-survives", fmt.Sprintf("%s -> %s: the update is acknowledged without any system call on the store directory", pr.prev, pr.next), idx,
+					&c09Replay{Property: "C09", Clause: "acknowledged-survives", Prev: pr.prev, Next: pr.next, Fault: "none", Detail: "no write, rename or sync reaches the store directory during an acknowledged update that changes the assignment"})
+				continue
 			}
 			r.Counters["store_syscalls_"+pr.prev+"->"+pr.next] = int64(len(pts1))
 			for _, pt := range pts1 {
